@@ -294,6 +294,19 @@ func (pg *program) Generate() error {
 	return nil
 }
 
+// isExternalTestPackage returns whether the package is made of the _test.go files of a directory that declare package name_test.
+func isExternalTestPackage(program *loader.Program, pkgInfo *loader.PackageInfo) bool {
+	if !strings.HasSuffix(pkgInfo.Pkg.Name(), "_test") || len(pkgInfo.Files) == 0 {
+		return false
+	}
+	for _, file := range pkgInfo.Files {
+		if !strings.HasSuffix(program.Fset.File(file.Pos()).Name(), "_test.go") {
+			return false
+		}
+	}
+	return true
+}
+
 func (pg *program) generatePackage(pkgInfo *loader.PackageInfo) error {
 	path := pkgInfo.Pkg.Path()
 	// ss := make([]string, len(pkgInfo.Files))
@@ -301,6 +314,18 @@ func (pg *program) generatePackage(pkgInfo *loader.PackageInfo) error {
 	// 	ss[i] = pg.program.Fset.File(pkgInfo.Files[i].Pos()).Name()
 	// }
 	// log.Printf("package: %s, files %d: %s", path, len(pkgInfo.Files), strings.Join(ss, ", "))
+	if isExternalTestPackage(pg.program, pkgInfo) {
+		// The external test package shares its directory, and so the name of its generated file,
+		// with the package it tests: what is generated for it would replace, or remove, that package's functions.
+		pkgGen, err := newPackage(pg.program, pkgInfo, pg.plugins, pg.autoname, pg.dedup)
+		if err != nil {
+			return err
+		}
+		if !pkgGen.Done() || len(pkgGen.undefined) > 0 {
+			return fmt.Errorf("derive functions are called in the external test package %s, which is not supported: call them from a test file of the package itself", path)
+		}
+		return nil
+	}
 	generated := true
 	var undefined string
 	thisprogram := pg.program
